@@ -57,6 +57,23 @@ theorem shlU_ok (p : Profile) (w : Nat) (s : String) (a : Int) (k : Nat) (h : k 
     simp; omega
   simp only [shlU, hg, if_true, Int.toNat_natCast]
 
+theorem wrapS32_spec (x : Int) :
+    (∃ k : Int, wrapS 32 x = x + k * 4294967296) ∧ -2147483648 ≤ wrapS 32 x ∧ wrapS 32 x < 2147483648 := by
+  simp only [wrapS]
+  have h : (2 : Int) ^ 32 = 4294967296 := by decide
+  simp only [h]
+  split
+  · exact ⟨⟨-(x / 4294967296), by omega⟩, by omega, by omega⟩
+  · exact ⟨⟨-(x / 4294967296) - 1, by omega⟩, by omega, by omega⟩
+
+
+theorem wrapS64_of_fits' (x : Int) (h : fitsS 64 x = true) : castS 64 x = x := by
+  rw [fitsS64_iff] at h
+  simp only [castS, wrapS]
+  have hp : (2 : Int) ^ 64 = 18446744073709551616 := by decide
+  simp only [hp]
+  split <;> omega
+
 @[simp] theorem Except_bind_ok {ε α β : Type} (a : α) (f : α → Except ε β) : (Except.ok a >>= f) = f a := rfl
 
 end Flac
